@@ -14,3 +14,15 @@ impl Clone for MmapH {
     fn clone(&self) -> (r: Self) ensures r == *self { MmapH { file: self.file } }
 }
 
+
+// File contents as seen by readers. Read-only units treat the disk as a fixed function (A-SEQ: no concurrent writer).
+pub uninterp spec fn disk(file: int) -> Seq<u8>;
+
+// SharedMmap::read(offset, dest) (R6). A-IO: a positional read inside the (preallocated, 1 GB) file fills the whole buffer;
+// reads that reach past the end of the file leave unspecified bytes (FdBackend::read ignores the result of read_at).
+#[verifier::external_body]
+pub fn mmap_read(m: &MmapH, offset: usize, dest: &mut [u8])
+    ensures
+        final(dest)@.len() == old(dest)@.len(),
+        offset + old(dest)@.len() <= disk(m.file).len() ==> final(dest)@ == disk(m.file).subrange(offset as int, offset + old(dest)@.len()),
+{ unimplemented!() }
